@@ -1,0 +1,19 @@
+//go:build verif
+
+package crdt
+
+import (
+	ds "github.com/ipfs/go-datastore"
+)
+
+// VerifBatchingEnabled exposes Config.batchingEnabled (whether LogPin/LogUnpin
+// go through the batching queue).
+func (cfg *Config) VerifBatchingEnabled() bool { return cfg.batchingEnabled() }
+
+// VerifRawPut writes a raw key/value to the crdt datastore the state layer sits
+// on (what a remote or foreign writer can produce); the PutHook runs as for any
+// other merged element.
+func (css *Consensus) VerifRawPut(k ds.Key, v []byte) error { return css.crdt.Put(k, v) }
+
+// VerifRawDelete deletes a raw key from the crdt datastore.
+func (css *Consensus) VerifRawDelete(k ds.Key) error { return css.crdt.Delete(k) }
